@@ -355,7 +355,8 @@ func runCase(c Case, r *runlog.R) error {
 			return fmt.Errorf("%s: Has(%q, -1) after Remove failed: %v", expl, k, err)
 		}
 		// the position may be taken by a later element of the same list that moved down
-		if wantHas := modelHas(root, segs[0]); has != wantHas {
+		// (if that element is nil padding, Has is not asserted: whether a nil entry "exists" is not C20's business)
+		if wantHas, padding := modelHas(root, segs[0]); !padding && has != wantHas {
 			return fmt.Errorf("%s: Has(%q, -1) after Remove = %v, want %v", expl, k, has, wantHas)
 		}
 		want := root.String()
@@ -400,31 +401,35 @@ func runCase(c Case, r *runlog.R) error {
 	return nil
 }
 
-// modelHas: does a non-nil value exist at path?
-func modelHas(n *mnode, path []seg) bool {
+// modelHas: does a value exist at path? padding reports that the path ends at
+// (or runs through) a nil list element.
+func modelHas(n *mnode, path []seg) (has, padding bool) {
 	cur := n
 	for i, sg := range path {
 		var v *mval
 		if sg.isIdx {
 			if int64(len(cur.arr)) <= sg.idx {
-				return false
+				return false, false
 			}
 			v = cur.arr[sg.idx]
+			if v == nil {
+				return false, true
+			}
 		} else {
 			v = cur.dict[sg.name]
-		}
-		if v == nil {
-			return false
+			if v == nil {
+				return false, false
+			}
 		}
 		if i == len(path)-1 {
-			return true
+			return true, false
 		}
 		if v.leaf {
-			return false
+			return false, false
 		}
 		cur = v.sub
 	}
-	return false
+	return false, false
 }
 
 // ---------------------------------------------------------------------------
@@ -432,21 +437,21 @@ func modelHas(n *mnode, path []seg) bool {
 
 var gridSpellings = []string{
 	// plain decimals around every cap of the grid
-	"0", "1", "2", "3", "6", "7", "8", "9", "10", "1023", "1024", "1025", "4999", "5000", "5001", "65536",
+	"0", "1", "2", "3", "6", "7", "8", "9", "10", "1023", "1024", "1025", "1999", "2000", "2001", "4999", "5000", "5001", "65536",
 	// signs
-	"+0", "+1", "+7", "+8", "+1024", "+1025", "+5000", "+5001", "-0", "-1", "-2", "-7", "-8", "-1024", "-1025", "-5000",
+	"+0", "+1", "+7", "+8", "+1024", "+1025", "+2000", "+2001", "+5000", "+5001", "-0", "-1", "-2", "-7", "-8", "-1024", "-1025", "-2000", "-5000",
 	"+-1", "-+1", "--1", "++1", "+", "-", "1-", "1+",
 	// leading zeros (octal under base-0 rules)
-	"00", "01", "07", "007", "08", "09", "010", "0010", "02000", "02001", "011610", "011611", "-01", "-00", "+07",
+	"00", "01", "07", "007", "08", "09", "010", "0010", "02000", "02001", "03720", "03721", "011610", "011611", "-01", "-00", "+07",
 	// hex
-	"0x0", "0x1", "0X1", "0x7", "0x8", "0x1f", "0X1F", "0x3ff", "0x400", "0x401", "0x1388", "0x1389", "-0x1", "+0x1", "-0x0",
+	"0x0", "0x1", "0X1", "0x7", "0x8", "0x1f", "0X1F", "0x3ff", "0x400", "0x401", "0x7d0", "0X7D1", "0x1388", "0x1389", "-0x1", "+0x1", "-0x0",
 	"0x", "0X", "0xg", "0x 1", "x1", "0x7fffffffffffffff", "0x8000000000000000", "-0x8000000000000000", "-0x8000000000000001", "0xffffffffffffffff",
 	// octal with 0o
-	"0o0", "0o1", "0o7", "0O7", "0o10", "0o2000", "0o2001", "0o11610", "0o8", "0o", "-0o1", "+0o1",
+	"0o0", "0o1", "0o7", "0O7", "0o10", "0o2000", "0o2001", "0o3720", "0o3721", "0o11610", "0o8", "0o", "-0o1", "+0o1",
 	// binary
-	"0b0", "0b1", "0B1", "0B11", "0b111", "0b1000", "0b10000000000", "0b10000000001", "0b2", "0b", "-0b1",
+	"0b0", "0b1", "0B1", "0B11", "0b111", "0b1000", "0b10000000000", "0b10000000001", "0b11111010000", "0b11111010001", "0b2", "0b", "-0b1",
 	// underscores
-	"1_0", "1__0", "_1", "1_", "0_1", "0_7", "0_", "0x_1", "0x1_f", "0x__1", "0x1_", "0_x1", "1_024", "1_025", "5_000", "0b_1", "0o_7", "_", "-_1", "-1_0", "+1_0",
+	"1_0", "1__0", "_1", "1_", "0_1", "0_7", "0_", "0x_1", "0x1_f", "0x__1", "0x1_", "0_x1", "1_024", "1_025", "2_000", "2_0_0_1", "5_000", "0b_1", "0o_7", "_", "-_1", "-1_0", "+1_0",
 	// blanks
 	" 1", "1 ", "1 0", " ", "\t1", "1\n",
 	// floats and other number-like strings
@@ -483,12 +488,21 @@ var gridLayouts = []layout{
 
 func i64(v int64) *int64 { return &v }
 
-var gridMaxIdx = []*int64{nil, i64(0), i64(1), i64(7), i64(5000)}
+// gridMaxIdx: the library merges a list in time quadratic in its length
+// (fields.append re-allocates per element), so the large cap is 2000 in the
+// quick tier; the thorough tier adds 5000.
+func gridMaxIdx() []*int64 {
+	caps := []*int64{nil, i64(0), i64(1), i64(7), i64(2000)}
+	if runlog.Thorough() {
+		caps = append(caps, i64(5000))
+	}
+	return caps
+}
 
 func enumGrid(yield func(Case) bool) {
 	for _, sp := range gridSpellings {
 		for _, lay := range gridLayouts {
-			for _, mi := range gridMaxIdx {
+			for _, mi := range gridMaxIdx() {
 				for _, nk := range []string{"unset", "off", "on"} {
 					for _, build := range []string{"map", "struct", "set"} {
 						c := Case{Sep: lay.sep, MaxIdx: mi, NumKeys: nk, Build: build, Layout: lay.name}
@@ -510,7 +524,7 @@ func enumGrid(yield func(Case) bool) {
 
 var subGrid = runlog.Register(&runlog.Sub[Case]{
 	Name: "grid",
-	Rule: "full product of 190 key spellings (decimal, signs, -0, 0x/0X, 0o, 0b, leading zeros, underscores, cap-1/cap/cap+1 of every MaxIdx of the grid in several bases, +-2^63 neighbours, blanks, 1.0, 1e1, empty, non-ASCII digits, plain names) x 9 layouts (sole key / one of several keys with and without PathSep, first / middle / last dotted segment, with and without named siblings in the same node) x MaxIdx {not given, 0, 1, 7, 5000} x EnableNumKeys {not given, false, true} x write site {NewFrom(map), NewFrom(struct with the key as tag name), SetString by name}; every built config is read back through Unpack (map, list, struct with the same tag names), String, Has and Remove by name under the same options. Oracle: own base-0 literal reader + classification (index iff literal, 0<=v<=MaxIdx, numeric keys not enabled for a single-segment key) => expected stored tree, compared with the stored tree (verif hook), IsDict/IsArray/CountField/GetFields, Unpack and getters; no list longer than MaxIdx+1. Non-trivial: the spelling parses as an integer under base-0 rules and is not a plain decimal inside [0,MaxIdx], or lies within 1 of the cap. Discarded: struct site with an empty key or a comma, setter with an empty name, spellings equal to a sibling. Negative MaxIdx is not documented and not generated.",
+	Rule: fmt.Sprintf("full product of %d key spellings (decimal, signs, -0, 0x/0X, 0o, 0b, leading zeros, underscores, cap-1/cap/cap+1 of every MaxIdx of the grid in several bases, +-2^63 neighbours, blanks, 1.0, 1e1, empty, non-ASCII digits, plain names) x 9 layouts (sole key / one of several keys with and without PathSep, first / middle / last dotted segment, with and without named siblings in the same node) x MaxIdx {not given, 0, 1, 7, 2000; thorough tier also 5000} x EnableNumKeys {not given, false, true} x write site {NewFrom(map), NewFrom(struct with the key as tag name), SetString by name}; every built config is read back through Unpack (map, list, struct with the same tag names), String, Has and Remove by name under the same options. Oracle: own base-0 literal reader + classification (index iff literal, 0<=v<=MaxIdx, numeric keys not enabled for a single-segment key) => expected stored tree, compared with the stored tree (verif hook), IsDict/IsArray/CountField/GetFields, Unpack and getters; no list longer than MaxIdx+1. Non-trivial: the spelling parses as an integer under base-0 rules and is not a plain decimal inside [0,MaxIdx], or lies within 1 of the cap. Discarded: struct site with an empty key or a comma, setter with an empty name, spellings equal to a sibling. Negative MaxIdx is not documented and not generated.", len(gridSpellings)),
 	Enum: enumGrid,
 	Run:  runCase,
 })
@@ -531,7 +545,7 @@ type IdxCase struct {
 
 func enumIdx(yield func(IdxCase) bool) {
 	for _, name := range []string{"", "a", "a.b", "1.a", "0x2"} {
-		for _, mi := range gridMaxIdx {
+		for _, mi := range gridMaxIdx() {
 			max := int64(defaultMaxIdx)
 			if mi != nil {
 				max = *mi
@@ -604,7 +618,7 @@ func runIdx(c IdxCase, r *runlog.R) error {
 
 var subIdx = runlog.Register(&runlog.Sub[IdxCase]{
 	Name: "explicit-idx",
-	Rule: "names {empty, a, a.b, 1.a, 0x2} x MaxIdx {not given, 0, 1, 7, 5000} x explicit idx {0, 1, cap-1, cap, cap+1, cap+2, 2cap+3} x setter {SetString, SetBool, SetChild} on an empty config. Only the consequence stated by C20 is asserted: whatever the call returns, no list has more than MaxIdx+1 entries afterwards (and an accepted value is found by Has). Non-trivial: idx >= cap-1.",
+	Rule: "names {empty, a, a.b, 1.a, 0x2} x MaxIdx {not given, 0, 1, 7, 2000 (+5000 thorough)} x explicit idx {0, 1, cap-1, cap, cap+1, cap+2, 2cap+3} x setter {SetString, SetBool, SetChild} on an empty config. Only the consequence stated by C20 is asserted: whatever the call returns, no list has more than MaxIdx+1 entries afterwards (and an accepted value is found by Has). Non-trivial: idx >= cap-1.",
 	Enum: enumIdx,
 	Run:  runIdx,
 })
